@@ -247,6 +247,11 @@ func (a *AsyncAdapter) Close() error {
 	_ = a.ioc.UnsetReadWrite(&a.slot)
 	a.ioc.Deregister(&a.slot)
 
+	if closer, ok := a.rw.(io.Closer); ok {
+		// The descriptor belongs to the adapted object (e.g. a net.Conn). Closing the number behind its back would
+		// make the owner close it a second time later, when the kernel may have handed it to somebody else.
+		return closer.Close()
+	}
 	return syscall.Close(a.slot.Fd)
 }
 
